@@ -3,6 +3,7 @@ from rules.common import *
 from spec import tables, inv
 
 LEVEL = 'proof'
+FIXTURES = ['F3', 'F1']
 HDR = tables.V2_HEADER
 
 
